@@ -99,6 +99,26 @@ def run(ctx):
             rr.append(f'sxg.reread {what} {f} {" ".join(b)}')
             rr.append(f'sxg.reuse {what} {" ".join(e0)} {" ".join(b)}')
     ctx.both(rr)
+    # signing with real keys (every second call of a process on a Signer that has signed before): header = model's header for the
+    # signature it carries, signature verifies under the certificate over the model's message
+    date8, exp8 = 1517418800, 1517418800 + 3600
+    cu8, vu8 = b'https://example.com/cert.msg', b'https://example.com/v'
+    sops, smeta = [], []
+    ks8 = [k for k in w.keys if k['curve'] in ('p256', 'p384') and k['hosts'].startswith(b'example.com')]
+    for ver in VERS:
+        for i in range(8 if not thorough else 60):
+            e = rand_exchange(rng, ver, payload=rbytes(rng, rng.choice([0, 5, 40])))
+            k = ks8[i % len(ks8)]
+            sops.append(f'sxg.sign {exs(e)} 16 {k["cert"]} {k["key"]} {hexs(cu8)} {hexs(vu8)} {date8} {exp8}')
+            smeta.append(k)
+    sres = ctx.go(sops)
+    signed8 = [(parse_ex(r), k) for r, k in zip(sres, smeta) if r and parse_ex(r)]
+    signed_checks(ctx, signed8, cu8, vu8, date8, exp8, 'c08')
+    # a signed exchange on which a further AddSignatureHeader fails keeps its Signature header (and therefore its file layout)
+    for (e, k) in signed8[:6]:
+        for mode in ('nokey', 'httpcert', 'badvalidity'):
+            r = ctx.go([f'sxg.resign.fail {exs(e)} {k["cert"]} {mode}'])[0]
+            ctx.records.append((f'c08.failed-resign-keeps-signature mode={mode} {e[0]}', r, 'same'))
     # the file layout as the command-line tool emits it (fresh path, over an existing longer file, to stdout; dumps of the header
     # block and of the signed message): accepted by an independent run of dump-signedexchange -verify
     import c20
